@@ -212,9 +212,162 @@ def props_deadline_end(E, res):
     return P
 
 
+# ---- Partition::record_missed_post: a missed proof removes exactly the partition's active power ----------------------
+# CUTS (declared): the expiration-queue rescheduling (ExpirationQueue::new / reschedule_all_as_faults / flush) and
+# Partition::validate_state; the power memos and the fault / recovery / unproven sets are the real code.
+
+def _pp_of(E, v):
+    v = E.deref(v)
+    return big(E, fget(E, v, 0, 'BigInt')), big(E, fget(E, v, 1, 'BigInt'))
+
+
+def run_missed_post(E):
+    rt, rtref = new_rt(E)
+    PF = Fields('actors/miner/src/partition_state.rs', 'Partition')
+    part = StructV('partition_state::Partition', {}, lazy='part')
+    env = E.ctx.env
+    pre = {k: _pp_of(E, fget(E, part, PF[k], 'PowerPair')) for k in ('live_power', 'faulty_power', 'unproven_power', 'recovering_power')}
+    # partition invariants (validate_state): power memos are non-negative and nest: faulty + unproven <= live, recovering <= faulty
+    for j in (0, 1):
+        E.ctx.assume(z3.And(*[pre[k][j] >= 0 for k in pre], pre['faulty_power'][j] + pre['unproven_power'][j] <= pre['live_power'][j],
+                            pre['recovering_power'][j] <= pre['faulty_power'][j]))
+    E.cuts['ExpirationQueue::new'] = lambda E2, c: ok(StructV('expiration_queue::ExpirationQueue', {0: MapM('map(expiration_queue)', (), 'expiration_queue::ExpirationSet', 'amt'), 1: E2.deref(c.args[2])}), c.dest_ty)
+    E.cuts['ExpirationQueue::reschedule_all_as_faults'] = lambda E2, c: ok(UNIT, c.dest_ty)
+    E.cuts['Partition::validate_state'] = lambda E2, c: ok(UNIT, c.dest_ty)
+    cell = Cell(part, 'part')
+    env.update(dict(pre=pre, cell=cell))
+    fn = find_fn(E, 'fil_actor_miner', 'record_missed_post', 'partition_state')
+    return E.run_function(fn, [RefV(cell, (), True), RefV(Cell(OpaqueV('store'), 'store'), ()), E.materialize('i64', 'fault_expiration'), LazyV('quant', 'quantize::QuantSpec')]), rt
+
+
+def props_missed_post(E, res):
+    env = res.ctx.env
+    if res.kind != 'return':
+        return [('no panic (%s)' % str(res.info)[:60], False)]
+    if is_err(res.value):
+        return [('recording a missed proof on a well-formed partition does not fail', False)]
+    PF = Fields('actors/miner/src/partition_state.rs', 'Partition')
+    pre = env['pre']
+    part1 = env['cell'].value
+    post = {k: _pp_of(E, fget(E, part1, PF[k], 'PowerPair')) for k in pre}
+    tup = E.deref(res.value.fields[('Ok', 0)])
+    delta, pen, newf = (_pp_of(E, tup.fields[i]) for i in range(3))
+    P = []
+    for j, nm in ((0, 'raw'), (1, 'quality-adjusted')):
+        active0 = pre['live_power'][j] - pre['faulty_power'][j] - pre['unproven_power'][j]
+        active1 = post['live_power'][j] - post['faulty_power'][j] - post['unproven_power'][j]
+        P.append(('a missed proof removes exactly the power the partition was contributing (%s)' % nm, delta[j] == -active0))
+        P.append(('afterwards the partition contributes no power (%s)' % nm, active1 == 0))
+        P.append(('all live power is faulty, nothing is recovering or unproven (%s)' % nm,
+                  z3.And(post['faulty_power'][j] == pre['live_power'][j], post['live_power'][j] == pre['live_power'][j], post['recovering_power'][j] == 0, post['unproven_power'][j] == 0)))
+        P.append(('penalised power = newly faulty power + failed recoveries (%s)' % nm,
+                  z3.And(newf[j] == pre['live_power'][j] - pre['faulty_power'][j], pen[j] == pre['recovering_power'][j] + newf[j])))
+    rec = E.deref(fget(E, part1, PF['recoveries'], 'BitField'))
+    unp = E.deref(fget(E, part1, PF['unproven'], 'BitField'))
+    P.append(('recovery declarations and unproven marks are cleared', b_and(models_fvm.bitfield_empty(E, rec), models_fvm.bitfield_empty(E, unp))))
+    return P
+
+
+# ---- Deadline::record_proven_sectors: what a Window PoSt credits ---------------------------------------------------------
+# CUTS (declared): Partition::record_skipped_faults and Partition::recover_faults (sector sets / per-sector power: C04 area)
+# -> arbitrary results, recorded; Deadline::add_expiration_partitions -> Ok.  Real: duplicate / already-proven checks,
+# activate_unproven, the accumulation of power deltas, the posted-partitions set, the deadline's faulty-power memo.
+
+def run_proven(nposts, nposted):
+    def run(E):
+        rt, rtref = new_rt(E)
+        DF = Fields('actors/miner/src/deadline_state.rs', 'Deadline')
+        PF = Fields('actors/miner/src/partition_state.rs', 'Partition')
+        idx = [E.materialize('u64', 'post%d.index' % i) for i in range(nposts)]
+        for x in idx:
+            E.ctx.assume(x.v < 3000)
+        posted = [E.materialize('u64', 'posted%d' % i).v for i in range(nposted)]
+        dl = StructV('deadline_state::Deadline', {DF['partitions_posted']: models_fvm.BitSetV(posted)}, lazy='dl')
+        fp0 = _pp_of(E, fget(E, dl, DF['faulty_power'], 'PowerPair'))
+        env = E.ctx.env
+        calls = {'skipped': [], 'recovered': []}
+
+        def pp(nm, nonneg=True):
+            raw, qa = z3.Int(nm + '.raw'), z3.Int(nm + '.qa')
+            if nonneg:
+                E.ctx.assume(z3.And(raw >= 0, qa >= 0))
+            return StructV('partition_state::PowerPair', {0: BigV(raw), 1: BigV(qa)}), (raw, qa)
+
+        def cut_skipped(E2, c):
+            k = len(calls['skipped'])
+            d, dv = pp('skipped%d.power_delta' % k, False)
+            nf, nfv = pp('skipped%d.new_fault' % k)
+            rr, rrv = pp('skipped%d.retracted' % k)
+            calls['skipped'].append(dict(delta=dv, nf=nfv, rr=rrv))
+            env['calls'] = calls
+            return ok(StructV('tuple', {0: d, 1: nf, 2: rr, 3: E2.ctx.fresh_bool('skipped%d.has_new_faults' % k)}), c.dest_ty)
+
+        def cut_recover(E2, c):
+            k = len(calls['recovered'])
+            r, rv = pp('recovered%d' % k)
+            # the partition whose unproven power is about to be activated
+            part = E2.deref(c.args[0])
+            calls['recovered'].append(dict(power=rv, unproven=_pp_of(E2, fget(E2, part, PF['unproven_power'], 'PowerPair'))))
+            env['calls'] = calls
+            return ok(r, c.dest_ty)
+        E.cuts['Partition::record_skipped_faults'] = cut_skipped
+        E.cuts['Partition::recover_faults'] = cut_recover
+        E.cuts['Deadline::add_expiration_partitions'] = lambda E2, c: ok(UNIT, c.dest_ty)
+        posts = VecV([StructV('types::PoStPartition', {0: x, 1: models_fvm.BitFieldV('post%d.skipped' % i)}) for i, x in enumerate(idx)], 'Vec<PoStPartition>')
+        cell = Cell(dl, 'dl')
+        env.update(dict(idx=[x.v for x in idx], posted=posted, cell=cell, fp0=fp0, calls=calls))
+        fn = find_fn(E, 'fil_actor_miner', 'record_proven_sectors', 'deadline_state')
+        return E.run_function(fn, [RefV(cell, (), True), RefV(Cell(OpaqueV('store'), 'store'), ()), RefV(Cell(LazyV('sectors', 'sectors::Sectors'), 'sectors'), ()),
+                                   LazyV('sector_size', 'fvm_shared::sector::SectorSize'), LazyV('quant', 'quantize::QuantSpec'), E.materialize('i64', 'fault_expiration'),
+                                   RefV(Cell(posts, 'posts'), (), True)]), rt
+    return run
+
+
+def props_proven(E, res):
+    env = res.ctx.env
+    ctx = res.ctx
+    if res.kind != 'return':
+        return [('no panic (%s)' % str(res.info)[:60], False)]
+    idx, posted = env['idx'], env['posted']
+    if is_err(res.value):
+        return []
+    DF = Fields('actors/miner/src/deadline_state.rs', 'Deadline')
+    P = []
+    for i in range(len(idx)):
+        for j in range(i + 1, len(idx)):
+            P.append(('one proof message never proves the same partition twice', idx[i] != idx[j]))
+        for q in posted:
+            P.append(('a partition already proven in this deadline is not proven (credited) again', idx[i] != q))
+    calls = env['calls']
+    P.append(('every proven partition is processed exactly once', len(calls['skipped']) == len(idx) and len(calls['recovered']) == len(idx)))
+    r = E.deref(res.value.fields[('Ok', 0)])
+    RF = Fields('actors/miner/src/deadline_state.rs', 'PoStResult')
+    pd = _pp_of(E, fget(E, r, RF['power_delta'], 'PowerPair'))
+    for j, nm in ((0, 'raw'), (1, 'quality-adjusted')):
+        exp = sum(c['delta'][j] for c in calls['skipped']) + sum(c['power'][j] + c['unproven'][j] for c in calls['recovered'])
+        P.append(('power credited by the proof = skipped-fault delta + recovered power + power of sectors proven for the first time (%s)' % nm, pd[j] == exp))
+    dl1 = env['cell'].value
+    fp1 = _pp_of(E, fget(E, dl1, DF['faulty_power'], 'PowerPair'))
+    for j in (0, 1):
+        P.append(("the deadline's faulty power moves by new faults minus recoveries", fp1[j] == env['fp0'][j] + sum(c['nf'][j] for c in calls['skipped']) - sum(c['power'][j] for c in calls['recovered'])))
+    pp1 = E.deref(fget(E, dl1, DF['partitions_posted'], 'BitField'))
+    if isinstance(pp1, models_fvm.BitSetV):
+        for x in idx:
+            P.append(('every proven partition is marked as posted', any_of([b == x for b in pp1.bits])))
+    else:
+        P.append(('posted set stays explicit', False))
+    return P
+
+
 def build(tier):
     from . import miner_formulas
-    return miner_formulas.build_qa(tier) + [Obligation('miner.Deadline::process_deadline_end[partitions=%d]' % n, run_deadline_end(n), props_deadline_end,
+    proven = [Obligation('miner.Deadline::record_proven_sectors[posts=%d, already posted=%d]' % sh, run_proven(*sh), props_proven,
+                         descr='a Window PoSt credits each partition at most once per deadline (no duplicates, not already proven); power credited = skipped delta + recovered + first-time proven (unproven) power; faulty-power memo exact; partitions marked posted',
+                         bounds='%d partition(s) in the proof, %d already posted; CUTS: record_skipped_faults, recover_faults (arbitrary results), add_expiration_partitions' % sh, max_paths=100000)
+              for sh in ([(1, 0), (1, 1), (2, 0)] if tier == 'quick' else [(1, 0), (1, 1), (2, 0), (2, 1), (3, 0)])]
+    return miner_formulas.build_qa(tier) + proven + [Obligation('miner.Partition::record_missed_post', run_missed_post, props_missed_post,
+                       descr="a missed proof removes exactly the partition's active power (live - faulty - unproven), leaves it contributing nothing, marks all live power faulty and clears recoveries / unproven",
+                       bounds='one partition, power memos symbolic under the nesting invariant; CUTS: expiration-queue rescheduling, validate_state', max_paths=2000)] + [Obligation('miner.Deadline::process_deadline_end[partitions=%d]' % n, run_deadline_end(n), props_deadline_end,
                        descr='closing a deadline records a missed proof for exactly the partitions that were not proven (and are not already entirely faulty), once each; power removed / penalised / newly faulty are the sums over those partitions',
                        bounds='%d partitions; partition contents symbolic; CUTS: Partition::record_missed_post (result contract), add_expiration_partitions' % n, max_paths=100000)
             for n in ([1, 2] if tier == 'quick' else [1, 2, 3])] + [Obligation('power.update_claimed_power', run_update, props_update,
